@@ -37,6 +37,7 @@ type Mode struct {
 	// configuration draw (older tapes yield 0 = off).
 	MediumDen   int
 	MediumHtlcs int
+	MediumSteps int // step multiplier of the medium arm (0 = 4)
 	MaxSteps    int
 	MaxHtlcs    int
 	// Hooks for other engines (C04/C05): called with the live sim.
@@ -107,7 +108,10 @@ func NewSim(r *simcore.Run, cfg Config, mode Mode) *Sim {
 			cfg.CapacitySat = 16_777_215
 		}
 		mode.MaxHtlcs = mode.MediumHtlcs
-		mode.MaxSteps *= 4
+		if mode.MediumSteps == 0 {
+			mode.MediumSteps = 4
+		}
+		mode.MaxSteps *= mode.MediumSteps
 		knobs.AddW, knobs.RemoveW = 14, 3
 		r.Arm = "medium-htlcs/" + r.Arm
 		r.Count("probe_medium_htlc_arm")
